@@ -416,7 +416,7 @@ package virtual
 // An upload reads through one frozen descriptor: whatever happens, it is
 // closed exactly once or handed to the CAS buffer, which closes it.
 //@ func (*fileBackedFile).uploadFile
-//@   props C16
+//@   props C16 C14
 //@   ensures frozen-descriptor-consumed-once: success ==> readerclosed(frozenFile) + readerowned(frozenFile) == 1
 //@   ensures digest-computed-from-the-uploaded-reader: true
 //@ func (*fileBackedFile).updateCachedDigest
